@@ -119,20 +119,28 @@ Proof.
            rewrite skipn_length in L. unfold zlen in *. lia.
 Qed.
 
-(* ---- simulation: reader over the chunked socket vs reader over the flat stream --- *)
+(* ---- simulation: reader over any socket model vs reader over the flat stream ------- *)
 Section Sim.
 Variable P : prims.
-Notation SS := (list (list Z)).
+Variable SS : Type.
+Variable tk : Z -> SS -> option (list Z * SS).
+Variable alpha : SS -> list Z.          (* the bytes the socket will deliver *)
+Variable good : SS -> Prop.
+Hypothesis Htk : forall n s, good s ->
+  match tk n s with
+  | Some (x, s') => ftake n (alpha s) = Some (x, alpha s') /\ good s'
+  | None => ftake n (alpha s) = None
+  end.
 Notation FS := (list Z).
 
 Definition srel {A} (x : rr SS A) (y : rr FS A) : Prop :=
   match x with
   | Need => y = Need
   | Fail e => y = Fail e
-  | Done a s' => y = Done a (concat s') /\ ne s'
+  | Done a s' => y = Done a (alpha s') /\ good s'
   end.
 Definition sim {A} (m1 : reader SS A) (m2 : reader FS A) : Prop :=
-  forall s, ne s -> srel (m1 s) (m2 (concat s)).
+  forall s, good s -> srel (m1 s) (m2 (alpha s)).
 
 Lemma sim_ret A (a : A) : sim (rret SS a) (rret FS a).
 Proof. intros s H. cbn. auto. Qed.
@@ -140,11 +148,11 @@ Lemma sim_fail A e : sim (@rfail SS A e) (@rfail FS A e).
 Proof. intros s H. reflexivity. Qed.
 Lemma sim_lift A (x : result A) : sim (rlift SS x) (rlift FS x).
 Proof. destruct x; [apply sim_ret|apply sim_fail]. Qed.
-Lemma sim_take n : sim (rtake SS stake n) (rtake FS ftake n).
+Lemma sim_take n : sim (rtake SS tk n) (rtake FS ftake n).
 Proof.
-  intros s H. unfold rtake, stake. pose proof (read_all_spec s n [] H) as R.
-  destruct (read_all n [] s) as [[x s']|].
-  - destruct R as (y & -> & -> & Hn). cbn. auto.
+  intros s H. unfold rtake. pose proof (Htk n s H) as R.
+  destruct (tk n s) as [[x s']|].
+  - destruct R as [-> Hn]. cbn. auto.
   - rewrite R. reflexivity.
 Qed.
 Lemma sim_bind A B (m1 : reader SS A) m2 (f1 : A -> reader SS B) f2 :
@@ -166,24 +174,39 @@ Ltac sim_tac :=
       | |- sim (match ?x with _ => _ end) (match ?x with _ => _ end) => destruct x
       end ].
 
-Lemma sim_read_message r : sim (read_message P SS stake r) (read_message P FS ftake r).
-Proof.
-  unfold read_message, read_classic. cbv beta iota zeta. sim_tac.
-Qed.
+Lemma sim_read_body r h : sim (read_body P SS tk r h) (read_body P FS ftake r h).
+Proof. unfold read_body, read_classic. cbv beta iota zeta. sim_tac. Qed.
 
-Lemma sim_read_many : forall fuel r s, ne s ->
-  let '(ps, evs, fi, rf, sf) := read_many P SS stake fuel r s in
-  read_many P FS ftake fuel r (concat s) = (ps, evs, fi, rf, concat sf).
+Lemma sim_read_message r : sim (read_message P SS tk r) (read_message P FS ftake r).
+Proof. unfold read_message. apply sim_bind; [apply sim_take|apply sim_read_body]. Qed.
+
+Lemma sim_read_many : forall fuel r s, good s ->
+  let '(ps, evs, fi, rf, sf) := read_many P SS tk fuel r s in
+  read_many P FS ftake fuel r (alpha s) = (ps, evs, fi, rf, alpha sf).
 Proof.
   induction fuel as [|f IH]; intros r s H; cbn [read_many]; [reflexivity|].
   pose proof (sim_read_message r s H) as R. unfold srel in R.
-  destruct (read_message P SS stake r s) as [| e | [[p ev] r'] s'].
+  destruct (read_message P SS tk r s) as [| e | [[p ev] r'] s'].
   - now rewrite R.
   - now rewrite R.
   - destruct R as [-> Hn]. specialize (IH r' s' Hn).
-    destruct (read_many P SS stake f r' s') as [[[[ps evs] fi] rf] sf]. now rewrite IH.
+    destruct (read_many P SS tk f r' s') as [[[[ps evs] fi] rf] sf]. now rewrite IH.
 Qed.
 End Sim.
+
+Lemma stake_spec : forall n s, ne s ->
+  match stake n s with
+  | Some (x, s') => ftake n (concat s) = Some (x, concat s') /\ ne s'
+  | None => ftake n (concat s) = None
+  end.
+Proof.
+  intros n s H. unfold stake. pose proof (read_all_spec s n [] H) as R.
+  destruct (read_all n [] s) as [[x s']|]; [|exact R].
+  destruct R as (y & -> & Ht & Hn). auto.
+Qed.
+
+Definition sim_read_many_chunks P :=
+  sim_read_many P (list (list Z)) stake (@concat Z) ne stake_spec.
 
 (* ---- prefix monotonicity of flat readers --------------------------------------- *)
 Section Mono.
@@ -252,8 +275,10 @@ Ltac mono_tac :=
       | |- mono (match ?x with _ => _ end) => destruct x
       end ].
 
+Lemma mono_read_body r h : mono (read_body P FS ftake r h).
+Proof. unfold read_body, read_classic. cbv beta iota zeta. mono_tac. Qed.
 Lemma mono_read_message r : mono (read_message P FS ftake r).
-Proof. unfold read_message, read_classic. cbv beta iota zeta. mono_tac. Qed.
+Proof. unfold read_message. apply mono_bind; [apply mono_take|apply mono_read_body]. Qed.
 End Mono.
 
 (* ---- arithmetic of _build_packet ------------------------------------------------ *)
@@ -468,7 +493,7 @@ Proof.
     destruct (split_at body (p_bs r - 4)) as (l & t & Hlt & Hll); [unfold zlen in *; lia|].
     destruct (Hfin Plain EvNone) as (zr' & Hf & Hz').
     exists EvNone, (with_mode_seq_z P r Plain ((p_seq r + 1) mod 2 ^ 32) zr'). split; [|split; [|split]].
-    + intros rest. unfold read_message. cbv zeta. unfold rbind at 1. unfold rtake at 1.
+    + intros rest. unfold read_message, read_body. cbv zeta. unfold rbind at 1. unfold rtake at 1.
       rewrite Hlt, <- !app_assoc, (app_assoc (be_encode 4 size) l).
       rewrite ftake_exact by (rewrite zlen_app, zlen_be; unfold zlen in *; lia).
       rewrite Emr. change (t ++ rest) with (t ++ [] ++ rest).
@@ -510,7 +535,7 @@ Proof.
     destruct (Hfin mr' (if 0 <? p_msz r then EvMac mp tag else EvNone)) as (zr' & Hf & Hz').
     exists (if 0 <? p_msz r then EvMac mp tag else EvNone),
            (with_mode_seq_z P r mr' ((p_seq r + 1) mod 2 ^ 32) zr'). split; [|split; [|split]].
-    + intros rest. unfold read_message. cbv zeta. unfold rbind at 1. unfold rtake at 1.
+    + intros rest. unfold read_message, read_body. cbv zeta. unfold rbind at 1. unfold rtake at 1.
       rewrite <- !app_assoc. rewrite ftake_exact by (unfold zlen; lia).
       rewrite Emr.
       eapply read_classic_honest with (l := l) (t := t) (m' := mr') (size := size)
@@ -545,7 +570,7 @@ Proof.
     destruct (Hfin (Etm (snd (c_dec P sd o)) k) (EvMac mp tag)) as (zr' & Hf & Hz').
     exists (EvMac mp tag), (with_mode_seq_z P r (Etm (snd (c_dec P sd o)) k) ((p_seq r + 1) mod 2 ^ 32) zr').
     split; [|split; [|split]].
-    + intros rest. unfold read_message. cbv zeta. unfold rbind, rtake.
+    + intros rest. unfold read_message, read_body. cbv zeta. unfold rbind, rtake.
       replace ((be_encode 4 size ++ o) ++ mac_tag P k (p_msz s) (be_encode 4 (p_seq s) ++ be_encode 4 size ++ o))
         with ((be_encode 4 size ++ o) ++ tag) by (unfold tag; now rewrite <- app_assoc).
       rewrite Ho at 1. rewrite <- !app_assoc, (app_assoc (be_encode 4 size) oa).
@@ -572,7 +597,7 @@ Proof.
     destruct (Hfin (Aead ak iv2) (EvAead iv (be_encode 4 size) ct)) as (zr' & Hf & Hz').
     exists (EvAead iv (be_encode 4 size) ct), (with_mode_seq_z P r (Aead ak iv2) ((p_seq r + 1) mod 2 ^ 32) zr').
     split; [|split; [|split]].
-    + intros rest. unfold read_message. cbv zeta. unfold rbind, rtake.
+    + intros rest. unfold read_message, read_body. cbv zeta. unfold rbind, rtake.
       rewrite Hct at 1. rewrite <- !app_assoc, (app_assoc (be_encode 4 size) ca).
       rewrite ftake_exact by (rewrite zlen_app, zlen_be; unfold zlen in *; lia).
       rewrite Emr.
@@ -687,7 +712,7 @@ Proof.
     exists [], r. split; [|exact Hs]. cbn [concat app read_many payloads].
     assert (N : read_message P FS ftake r q = Need).
     { destruct Hq as [-> | (p & rnd & w & s'' & H1 & H2 & H3 & H4 & H5)].
-      - unfold read_message. cbv zeta. unfold rbind, rtake.
+      - unfold read_message. unfold rbind, rtake.
         destruct Hs as (Hbs & _ & _ & _ & Hbs8 & _). rewrite ftake_short; [reflexivity|lia|rewrite zlen_nil; lia].
       - eapply prefix_blocks; eauto. }
     now rewrite N.
@@ -710,8 +735,8 @@ Theorem chunking_independent fuel (r : pstate P) (s1 s2 : list (list Z)) :
   let '(ps2, evs2, f2, r2, rest2) := read_many P (list (list Z)) stake fuel r s2 in
   ps1 = ps2 /\ f1 = f2 /\ r1 = r2 /\ concat rest1 = concat rest2.
 Proof.
-  intros H1 H2 E. pose proof (sim_read_many P fuel r s1 H1) as A.
-  pose proof (sim_read_many P fuel r s2 H2) as B.
+  intros H1 H2 E. pose proof (sim_read_many_chunks P fuel r s1 H1) as A.
+  pose proof (sim_read_many_chunks P fuel r s2 H2) as B.
   destruct (read_many P (list (list Z)) stake fuel r s1) as [[[[ps1 evs1] f1] r1] rest1].
   destruct (read_many P (list (list Z)) stake fuel r s2) as [[[[ps2 evs2] f2] r2] rest2].
   rewrite E in A. rewrite A in B. injection B as -> _ -> -> ->. auto.
@@ -721,7 +746,7 @@ Theorem chunked_equals_flat fuel (r : pstate P) (s : list (list Z)) :
   ne s ->
   let '(ps, evs, fi, rf, sf) := read_many P (list (list Z)) stake fuel r s in
   read_many P FS ftake fuel r (concat s) = (ps, evs, fi, rf, concat sf).
-Proof. apply sim_read_many. Qed.
+Proof. apply sim_read_many_chunks. Qed.
 End Lists.
 
 (* ---- non-vacuity: identity primitives satisfy the laws --------------------------- *)
